@@ -204,6 +204,24 @@ def utf8Decode : List UInt8 → Option (List Char)
     else none
 termination_by bs => bs.length
 
+/-- a chunk that stands for "this read timed out" (no data for a while): the single byte 0xF8, which never occurs in
+UTF-8 text.  Only the in-process pipe of the GUI times out; the harness scripts such chunks to model an evaluation that
+is BLOCKED waiting for input. -/
+def timeoutChunk : List UInt8 := [0xF8]
+
+/-- the first time-out among the chunks the current line still needs: the data chunks before it (none of them holds a
+newline) and the chunks after it; `none` when the line is complete — or the input ends — before any time-out -/
+def firstTimeoutIn : List (List UInt8) → List (List UInt8) → Option (List (List UInt8) × List (List UInt8))
+  | [], _ => none
+  | c :: cs, seen =>
+    if c = timeoutChunk then some (seen.reverse, cs)
+    else if c = [] then none
+    else if (splitAfterNewline c).isSome then none
+    else firstTimeoutIn cs (c :: seen)
+
+def firstTimeout (buf : List UInt8) (chunks : List (List UInt8)) : Option (List (List UInt8) × List (List UInt8)) :=
+  if (splitAfterNewline buf).isSome then none else firstTimeoutIn chunks []
+
 inductive LineResult where
   | line (text : List Char)
   | eof
